@@ -31,19 +31,34 @@ def run(ctx):
     # the existence tests and the copied content come from the listing / script decoders (D1, D2, D4, D5 of C17)
     from .c17 import decoder_rules
     decoder_rules(ctx, R)
+    # the names given by the caller must reach the server as the same names: the argument encoding of C08 (W2 escaping, W3/W6 literals)
+    from .c08 import wire_rules
+    wire_rules(ctx, R, verbs=False)
 
 
 def rename_rules(ctx, R, only=None):
     f = R.methods.get("renamescript")
     if f is None:
         raise AnalysisError("R", "Client.renamescript not found")
+    outer = f
+    STEPS = ("listscripts", "getscript", "putscript", "setactive", "deletescript")
+    helper_call = None
+    if not all(self_calls(f, opn) for opn in STEPS):
+        # the emulation may live in a helper that renamescript calls with (old, new)
+        for c in self_calls(f):
+            g = R.methods.get(c.func.attr)
+            if g is not None and g is not f and c.func.attr not in STEPS and all(self_calls(g, opn) for opn in STEPS):
+                if [norm(a) for a in c.args] != f.params[1:3] or len(g.params) < 3:
+                    raise AnalysisError("R", "emulation helper %s is not called with (old, new)" % g.qualname)
+                f, helper_call = g, c
+                break
     cfg = ctx.cfg(f)
     params = f.params[1:]
     if len(params) < 2:
         raise AnalysisError("R", "renamescript takes fewer than two names")
     old, new = params[0], params[1]
     ops = {}
-    for opn in ("listscripts", "getscript", "putscript", "setactive", "deletescript"):
+    for opn in STEPS:
         cs = self_calls(f, opn)
         if not cs:
             raise AnalysisError("R", "emulation step %s not found in renamescript" % opn)
@@ -186,7 +201,13 @@ def rename_rules(ctx, R, only=None):
             if cp and isinstance(cp[0], ast.Name) and cp[0].id == content.id and isinstance(cp[2], ast.Constant) and cp[2].value is None:
                 return (cp[1] == "Is" and pol is False) or (cp[1] == "IsNot" and pol is True)
             return False
-        if all(cfg.guarded(n, got) for n in nodes_of(c)):
+        # getscript answers None for a failed download and "" for an empty script: a truthiness test cannot tell them apart
+        truthy = [fc for fc in cfg.facts() if isinstance(fact_atom(fc)[0], ast.Name) and fact_atom(fc)[0].id == content.id]
+        if truthy:
+            ctx.violation("R3", f, "empty-script-is-failure", "the downloaded script is tested for truth (%s): an existing script with empty "
+                          "content is treated like a failed download" % norm(truthy[0].expr)[:40], node=truthy[0].ast or f.node,
+                          witness="renamescript of a script whose content is empty returns False and renames nothing")
+        elif all(cfg.guarded(n, got) for n in nodes_of(c)):
             ctx.holds("R3", "%s: put uploads %s = getscript(old), tested for None" % (f.qualname, content.id))
         else:
             ctx.violation("R3", f, "content-none", "putscript can be called although getscript(old) failed (None)", node=c,
@@ -267,8 +288,18 @@ def rename_rules(ctx, R, only=None):
 
     # ---- R7 native path -------------------------------------------------------------
     ctx.rule("R7", "with the server capability present only the native RENAMESCRIPT is sent")
-    sites = [(c, v) for (g, c, v) in sender_sites(ctx, R) if g is f]
+    sites = [(c, v) for (g, c, v) in sender_sites(ctx, R) if g is outer]
     nat = [c for c, v in sites if v == "RENAMESCRIPT"]
+    emu_f, emu_cfg, emu_old, emu_new = f, cfg, old, new
+    if outer is not f:
+        f, cfg = outer, ctx.cfg(outer)
+        old, new = outer.params[1], outer.params[2]
+
+        def nodes_of(call):  # noqa: F811 - locate in the outer function from here on
+            ns = cfg.node_containing(call)
+            if not ns:
+                raise AnalysisError("R", "call %s not located in CFG" % norm(call))
+            return ns
     if not nat:
         ctx.violation("R7", f, "no-native", "renamescript never sends RENAMESCRIPT", node=f.node)
     else:
@@ -293,8 +324,12 @@ def rename_rules(ctx, R, only=None):
                 ctx.holds("R7", "native rename only when the capability is announced")
             else:
                 ctx.violation("R7", f, "native-unguarded", "RENAMESCRIPT is sent although the server did not announce support", node=c)
-        for opn in want:
-            for c in ops[opn]:
-                if not all(cfg.guarded(n, cap(False)) for n in nodes_of(c)):
-                    ctx.violation("R7", f, "emulation-with-native", "emulation step %s is reachable although the server supports RENAMESCRIPT"
-                                  % opn, node=c)
+        if helper_call is not None:
+            if not all(cfg.guarded(n, cap(False)) for n in nodes_of(helper_call)):
+                ctx.violation("R7", f, "emulation-with-native", "the emulation is reachable although the server supports RENAMESCRIPT", node=helper_call)
+        else:
+            for opn in want:
+                for c in ops[opn]:
+                    if not all(cfg.guarded(n, cap(False)) for n in nodes_of(c)):
+                        ctx.violation("R7", f, "emulation-with-native", "emulation step %s is reachable although the server supports RENAMESCRIPT"
+                                      % opn, node=c)
